@@ -30,10 +30,16 @@ OPS = [  # (regex, replacement) applied to one occurrence at a time
 SKIP_LINE = re.compile(r'^\s*(//|#\[|use |pub use |mod |assert|debug_assert|///)|\bpanic!|\bexpect\(|unreachable!|\bformat!|println!|\.context\(|bail!|anyhow!')
 
 def sh(cmd, cwd=V, timeout=3000, env=None):
+    import signal
+    p = subprocess.Popen(cmd, shell=True, cwd=cwd, stdout=subprocess.PIPE, stderr=subprocess.STDOUT, text=True, env=env, start_new_session=True)
     try:
-        p = subprocess.run(cmd, shell=True, cwd=cwd, stdout=subprocess.PIPE, stderr=subprocess.STDOUT, text=True, timeout=timeout, env=env)
-        return p.returncode, p.stdout
-    except subprocess.TimeoutExpired: return 124, 'timeout'
+        out, _ = p.communicate(timeout=timeout); return p.returncode, out
+    except subprocess.TimeoutExpired:
+        try: os.killpg(p.pid, signal.SIGKILL)
+        except OSError: pass
+        try: out, _ = p.communicate(timeout=30)
+        except Exception: out = ''
+        return 124, (out or '') + '\ntimeout'
 
 def gen(files, seed, maxn):
     rnd = random.Random(seed); muts = []
@@ -86,15 +92,16 @@ def main():
                 row = {k_: v for k_, v in mu.items() if not k_.startswith('_')}; row['checks'] = {}; verdict = None
                 env = dict(os.environ, VERIF_REPO=wt, VERIF_OUT=outd)
                 for c in FILES[mu['file']]:
-                    rc, out = sh('./check %s' % c, env=env, timeout=1500)
+                    rc, out = sh('./check %s' % c, env=env, timeout=900)
                     viol = re.findall(r'VIOLATION property=\S+ replay=\S+/(\S+)\.json', out)
                     row['checks'][c] = {'exit': rc, 'obligations': viol[:4]}
                     if rc == 1 and viol: verdict = 'flagged'; break
                     if 'MIR dump failed' in out: verdict = 'does not compile'; break
                     if rc == 2: row['checks'][c]['tail'] = out[-400:]
                 if verdict is None:
-                    rc, out = sh('cargo test --workspace --no-fail-fast --offline 2>&1 | grep -E "^test result|FAILED|error(\\[|:)" | head -20', wt, env=tenv, timeout=2400)
-                    if 'error' in out and 'test result' not in out: verdict = 'does not compile'
+                    rc, out = sh('cargo test --workspace --no-fail-fast --offline 2>&1 | grep -E "^test result|FAILED|error(\\[|:)" | head -20', wt, env=tenv, timeout=900)
+                    if rc == 124: verdict = 'killed by the test suite only (the tests hang)'
+                    elif 'error' in out and 'test result' not in out: verdict = 'does not compile'
                     elif 'FAILED' in out: verdict = 'killed by the test suite only'
                     elif any(v.get('exit') == 2 for v in row['checks'].values()): verdict = 'inconclusive (a check could not run on the mutant) and tests pass'
                     else: verdict = 'SURVIVOR'
